@@ -404,6 +404,22 @@ def run_check(prop, tier, seed, replay):
     topics = cfg['topics']
     my_mons = [m for m in res.mons if m[2] == prop]
     my_diffs = [d for d in res.diffs if topics(d[2])]
+    if cfg.get('metamorphic_flags'):
+        # C17: a history that disagrees with the model under a flag set but agrees with it with no flag set is a
+        # failing input of the flag property itself (the model is proved to be filter-invariant, C17_filter)
+        my_diffs = []
+        tried = 0
+        for (tf, idx, text) in res.diffs:
+            hist = extract_history(tf, idx)
+            if not hist or 'flags=-' in hist[0] or tried >= 6: continue
+            tried += 1
+            plain = [re.sub(r'flags=\S+', 'flags=-', hist[0])] + hist[1:]
+            out, err, _ = run_history(plain, prop + '-noflags')
+            if out is not None and ' diff ' not in out and not [l for l in out.split('\n') if l.startswith('M ')]:
+                my_mons.append((tf, idx, prop, 'flag-changes-more-than-its-class', '0', text))
+            else:
+                my_diffs.append((tf, idx, text))
+        my_diffs = [d for d in my_diffs if topics(d[2])]
 
     seen = set()
     for (tf, idx, p, cause, evn, detail) in my_mons:
@@ -414,7 +430,11 @@ def run_check(prop, tier, seed, replay):
             known_lines.append(f'KNOWN-FINDING: property={prop} {k[0]["what"]} [{cause}]')
             continue
         hist = extract_history(tf, idx)
-        small = shrink(hist, ('M', prop, cause), prop, budget=60 if tier == 'quick' else 200)
+        if cause == 'flag-changes-more-than-its-class':
+            m = re.search(r'kind=(\S+) topic=(\S+)', detail)
+            small = shrink(hist, ('R', m.group(1), m.group(2)), prop, budget=60) if m else hist
+        else:
+            small = shrink(hist, ('M', prop, cause), prop, budget=60 if tier == 'quick' else 200)
         out, _, stf = run_history(small, prop + '-final')
         body = small + ['', '# trace on the current tree and verdicts:'] + open(stf).read().split('\n')[:400] + (out or '').split('\n')
         path = write_replay(prop, cause, {'property': prop, 'cause': cause, 'seed': seed, 'tier': tier, 'detail': detail[:500],
